@@ -22,13 +22,19 @@ CLAIM = dict(
           "(flip with a negative axis used to be a no-op; repaired by the fix: commit 'flip normalises a negative axis', "
           "model and theorem follow the repaired code.) "
           "Tied to the C++ by running the index functions on 6 container kinds, the views on run-time shaped arrays with run-time "
-          "and compile-time-constant arguments and the eager array:: versions, comparing shape and every element."),
+          "and compile-time-constant arguments and the eager array:: versions, comparing shape and every element; axis-list "
+          "arguments (flip, transpose, moveaxis, expand_dims) are exercised in every order and sign spelling in 8 container kinds "
+          "on operands with all-distinct extents (the Spec, like NumPy, does not depend on the order of a flip / expand_dims list)."),
     ref="5.3", technique="Coq proof (list induction, nth-extensionality, C01 round trips, one finite vm_compute sweep for moveaxis) + differential correspondence with the extracted model",
     extra="")
 RULE = ("all source shapes dim 1..4 extents 1..3 (quick; thorough: extents 1..4): every equal-count target of dim 1..3 (dim 4 sampled) "
         "with every single -1 position, every permutation (plus negative-axis spellings), every signed axis / axis pair for "
         "moveaxis, swapaxes, expand_dims, flip, nd 0..5 for atleast_nd, squeeze of every shape; index-level functions on rotating "
         "container kinds; compile-time-constant argument variants; compositions (transpose∘transpose, flip∘flip, squeeze∘expand_dims); "
+        "axis LISTS (flip, transpose, moveaxis source x destination, expand_dims) on operands with all-distinct extents >= 2 "
+        "((2,3),(2,3,4),(2,3,4,5) in every arrangement): every ordered sub-list (ascending, descending, shuffled), written "
+        "non-negatively / all-negatively / with mixed signs, lengths 1..dim, held in std::vector<int|size_t>, static_vector, "
+        "std::array<int|size_t>, int[N], run-time tuple and tuple of constants (drivers/c03_lists.cpp); "
         "sampled larger shapes (dim <= 5, extents <= 7); a malformed stream (spec 'unspecified', only crashes are looked at by C15). "
         "non-trivial = source of dim >= 2 with some extent > 1; distinct = distinct case lines")
 THEOREM_STATUS = {
@@ -45,7 +51,10 @@ ASSUMPTIONS = ["extents are positive and element counts stay below 2^64 (size_t 
 
 
 def drivers(tier):
-    return {"c03": [("c03.cpp", "ndebug", ()), ("c03.cpp", "asan", ("-DVD_LIGHT",))]}
+    return {"c03": [("c03.cpp", "ndebug", ()), ("c03.cpp", "asan", ("-DVD_LIGHT",))],
+            # axis-list arguments in every container kind (vector / static_vector / std::array / int[N] / run-time tuple /
+            # tuple of constants); the sanitizer build keeps the run-time sized kinds
+            "c03l": [("c03_lists.cpp", "ndebug", ()), ("c03_lists.cpp", "asan", ("-DVD_LIGHT",))]}
 
 
 def L(v): return "L:" + ",".join(str(x) for x in v)
@@ -60,6 +69,33 @@ AKINDS = ["veci", "sv", "arri"]                        # signed kinds (axes, tar
 CT_RESHAPE = {6: ["6", "2x3", "3x2", "-1x2", "3x-1"], 12: ["12", "3x4", "2x3x2", "2x2x3x1", "-1x2", "3x-1", "2x-1x2"], 4: ["-1x2", "2x-1x2"],
               2: ["-1x2"], 3: ["3x-1"], 9: ["3x-1"], 8: ["-1x2", "2x-1x2"], 18: ["-1x2", "3x-1"], 24: ["-1x2", "3x-1", "2x-1x2"]}
 CT_TRANSPOSE = {2: ["10", "01"], 3: ["021", "120", "201", "210"], 4: ["2031", "3102", "1230"]}
+
+
+CT_LISTS = ["1", "-1", "1x0", "0x1", "-1x0", "0x-1", "-1x-2", "2x0", "0x2", "2x1", "-1x-3", "2x-3", "-3x2",
+            "2x1x0", "0x2x1", "1x2x0", "-1x0x1", "-1x-2x-3", "2x-2x0", "3x1", "-1x1", "2x0x3", "3x2x1x0", "1x3x0x2", "-1x-3x0x2"]
+CT_PAIRS = ["1x0_0x1", "0x1_1x0", "2x0_0x1", "-1x0_0x2", "2x1_-3x-1", "2x1x0_0x1x2", "1x2x0_2x0x1", "3x1_0x2", "-1x-3x0_2x0x1"]
+
+
+def ct_ints(name): return [int(t) for t in name.split("x")]
+
+
+def valid_axes(ax, n):
+    """the list as NumPy normalises it, or None when NumPy rejects it (out of range / repeated)"""
+    if any(a < -n or a >= n for a in ax): return None
+    q = [a + n if a < 0 else a for a in ax]
+    return q if len(set(q)) == len(q) else None
+
+
+def spellings(ax, n, rng):
+    """the same ordered axis list written non-negatively, all-negatively and with mixed signs"""
+    ax = tuple(ax); neg = tuple(a - n for a in ax)
+    out = [ax, neg]
+    if len(ax) >= 2:
+        while True:
+            m = tuple(a - n if rng.random() < 0.5 else a for a in ax)
+            if min(m) < 0 <= max(m): break
+        out.append(m)
+    return out
 
 
 def factorizations(n, k):
@@ -195,8 +231,8 @@ def gen_cases(rng, tier):
             elif r < 0.5: add(st, "flip_slices I:%d I:%d" % (n, a))
             if rng.random() < 0.2: add("laws", "flip2 %s I:%d" % (A(s), a))
         for k in range(1, n + 1):
-            for ax in itertools.combinations(range(n), k):
-                if rng.random() < 0.5:
+            for ax in itertools.permutations(range(n), k):      # every order: NumPy accepts the axes in any order
+                if rng.random() < (0.5 if k == 1 or n < 4 else 0.2):
                     add("flip", "flip %s %s" % (A(s), L(ax)))
                     if rng.random() < 0.2: add("flip", "flip_slices I:%d %s" % (n, L(ax)))
                     if rng.random() < 0.15: add("laws", "flip2 %s %s" % (A(s), L(ax)))
@@ -206,6 +242,73 @@ def gen_cases(rng, tier):
                     add(st, "flip %s %s" % (A(s), L(sg)))
                     if rng.random() < 0.3: add(st, "flip_slices I:%d %s" % (n, L(sg)))
                     if rng.random() < 0.2: add("laws", "flip2 %s %s" % (A(s), L(sg)))
+    # ---------------- axis LISTS in every order / sign spelling / container kind, on operands whose extents are all
+    # distinct and >= 2 (so a missing reversal / a misplaced axis changes both shape and elements)
+    dshapes = list(itertools.permutations((2, 3))) + list(itertools.permutations((2, 3, 4)))
+    d4 = list(itertools.permutations((2, 3, 4, 5)))
+    dshapes += (rng.sample(d4, 6) if quick else d4)
+    SIGNED_K = ["veci", "sv", "arri", "carr", "tup"]; UNSIGNED_K = ["vecu", "arru"]
+    def addl(stream, line): out.append((stream, line, "c03l"))
+    rot = itertools.count()
+    def kinds_for(ax, allk, pool):
+        ks = list(pool) + (UNSIGNED_K if min(ax) >= 0 else [])
+        ks = [k for k in ks if k in allk]
+        if len(ks) <= 2: return ks
+        i = next(rot)
+        return [ks[i % len(ks)], ks[(i + 1) % len(ks)]]
+    for s in dshapes:
+        n = len(s)
+        # --- flip: every ordered sub-list of the axes
+        for k in range(1, n + 1):
+            for ax0 in itertools.permutations(range(n), k):
+                for ax in spellings(ax0, n, rng):
+                    allk = SIGNED_K + UNSIGNED_K
+                    ks = (allk if min(ax) >= 0 else SIGNED_K) if n <= 3 else kinds_for(ax, allk, SIGNED_K)
+                    for kd in ks: addl("flip_lists", "flipk S:%s %s %s" % (kd, A(s), L(ax)))
+                    r = rng.random()
+                    if r < 0.3: addl("flip_lists", "flip_slicesk S:%s I:%d %s" % (rng.choice(["veci", "sv", "arri"]), n, L(ax)))
+                    elif r < 0.4: addl("flip_lists", "flipk_eval S:%s %s %s" % (rng.choice(["veci", "arri"]), A(s), L(ax)))
+                    if k >= 2 and rng.random() < 0.3:
+                        again = list(ax0); rng.shuffle(again)
+                        addl("laws", "flip2p %s %s %s" % (A(s), L(ax), L(rng.choice(spellings(again, n, rng)))))
+        for name in CT_LISTS:
+            if valid_axes(ct_ints(name), n) is not None: addl("ct_lists", "flipct S:%s %s" % (name, A(s)))
+        # --- transpose: every permutation, every spelling
+        for p in itertools.permutations(range(n)):
+            for ax in spellings(p, n, rng):
+                for kd in kinds_for(ax, SIGNED_K + UNSIGNED_K, ["veci", "sv", "arri", "tup"]):
+                    addl("transpose_lists", "transposek S:%s %s %s" % (kd, A(s), L(ax)))
+        for name in CT_LISTS:
+            q = valid_axes(ct_ints(name), n)
+            if q is not None and len(q) == n: addl("ct_lists", "transposect S:%s %s" % (name, A(s)))
+        # --- moveaxis: ordered source list x ordered destination list
+        pairs = []
+        for k in range(1, n + 1):
+            pairs += list(itertools.product(itertools.permutations(range(n), k), repeat=2))
+        for src0, dst0 in cap(pairs, 120 if quick else 600):
+            for src, dst in ((src0, dst0), (rng.choice(spellings(src0, n, rng)), rng.choice(spellings(dst0, n, rng)))):
+                kd = kinds_for(tuple(src) + tuple(dst), ["veci", "sv", "arri", "vecu", "arru"], ["veci", "sv", "arri"])[0]
+                addl("moveaxis_lists", "moveaxisk S:%s %s %s %s" % (kd, A(s), L(src), L(dst)))
+                r = rng.random()
+                if r < 0.15: addl("moveaxis_lists", "moveaxis_orderk S:%s %s %s %s" % (kd, L(s), L(src), L(dst)))
+                elif r < 0.2: addl("moveaxis_lists", "moveaxisk_eval S:%s %s %s %s" % (rng.choice(["veci", "arri"]), A(s), L(src), L(dst)))
+        for name in CT_PAIRS:
+            a, b = name.split("_")
+            if valid_axes(ct_ints(a), n) is not None and valid_axes(ct_ints(b), n) is not None:
+                addl("ct_lists", "moveaxisct S:%s %s" % (name, A(s)))
+        # --- expand_dims: ordered lists of new positions
+        for k in (1, 2, 3):
+            lists = list(itertools.permutations(range(n + k), k))
+            for ax0 in cap(lists, 30 if quick else 120):
+                for ax in spellings(ax0, n + k, rng):
+                    kd = kinds_for(ax, ["veci", "sv", "arri", "vecu", "arru"], ["veci", "sv", "arri"])[0]
+                    addl("expand_dims_lists", "expandk S:%s %s %s" % (kd, A(s), L(ax)))
+                    r = rng.random()
+                    if r < 0.15: addl("expand_dims_lists", "expand_shapek S:%s %s %s" % (kd, L(s), L(ax)))
+                    elif r < 0.2: addl("expand_dims_lists", "expandk_eval S:%s %s %s" % (rng.choice(["veci", "arri"]), A(s), L(ax)))
+        for name in CT_LISTS:
+            ax = ct_ints(name)
+            if valid_axes(ax, n + len(ax)) is not None: addl("ct_lists", "expandct S:%s %s" % (name, A(s)))
     # ---------------- normalize_axis
     for n in range(1, 6):
         for a in range(-n - 2, n + 2):
